@@ -4,7 +4,7 @@ in range on all paths, (c) fast-path guard constants inside their proven-safe
 region, (d) the truncation flag is monotone, (e) the Eisel-Lemire path cannot
 store an Inf/NaN exponent and the fallback result is screened for infinity
 (DESIGN.md section 5/C04)."""
-from ..core import get_facts, strip, strip_expect, cval, show, walk, locline, is_this_member
+from ..core import get_facts, strip, strip_expect, cval, show, walk, locline, is_this_member, AnalysisBroken
 from ..e5_tables import (arr, find_static, check_rows, pow10_m128_floor, double_bits)
 from ..e3_interval import check_table_subscripts, intervals_for, table_value_ranges, INF
 
@@ -190,6 +190,56 @@ def clause_c(facts, rep):
             lim = [e['v'] for e in fl]
             ok = all(float(v) <= 1e15 for v in lim) and lim
             rep.check(ok, 'E5.fast-guard', f.qn, 'intermediate product bound %s' % lim, f.loc, 'man*10^(exp10-22) must stay <= 1e15 < 2^53 so both multiplications are exact', facts.config)
+            # every multiply/divide of the accumulator acts on an exactly representable operand: either the freshly
+            # converted mantissa (< 2^53, guarded by the caller) or a product that was tested <= L <= 2^53 since its last change
+            from ..e2_dom import Must as _Must
+            dref = [p_ for p_ in f.params if p_.get('name') == 'd' or 'double &' in (p_.get('t') or '')]
+            rep.require(len(dref) == 1, 'C04.c: accumulator parameter of parseFloatingFast not bound')
+            if dref:
+                did = dref[0]['id']
+
+                def is_d(x):
+                    x = strip(x)
+                    return x is not None and x.get('k') == 'ref' and x.get('id') == did
+
+                def gen_stmt(st):
+                    st = strip(st)
+                    if st is not None and st.get('k') == 'bin' and st['op'] == '=' and is_d(st['l']):
+                        return ['exact']
+                    return []
+
+                def kill_stmt(st):
+                    st = strip(st)
+                    if st is not None and st.get('k') == 'bin' and st['op'] in ('*=', '/=', '+=', '-=') and is_d(st['l']):
+                        return ['exact']
+                    return []
+
+                def gen_edge(b, cond, sense):
+                    c = strip_expect(cond)
+                    if c is not None and c.get('k') == 'bin' and c['op'] in ('>', '>=') and is_d(c['l']) and sense is False:
+                        r = strip(c['r'])
+                        lim_ = None
+                        for y in walk(c['r']):
+                            if y.get('k') == 'flit':
+                                lim_ = float(y['v'])
+                        if lim_ is None and cval(c['r']) is not None:
+                            lim_ = float(cval(c['r']))
+                        if lim_ is not None and 0 <= lim_ <= 2.0 ** 53:
+                            return ['exact']
+                    return []
+                Mx = _Must(f, gen_stmt=gen_stmt, kill_stmt=kill_stmt, gen_edge=gen_edge)
+                nops = 0
+                for bid, i, st in f.stmts():
+                    s_ = strip(st)
+                    if s_ is not None and s_.get('k') == 'bin' and s_['op'] in ('*=', '/=') and is_d(s_['l']):
+                        stt = Mx.at(bid, i)
+                        if stt is None:
+                            continue
+                        nops += 1
+                        rep.check('exact' in stt, 'E5.fast-guard', f.qn, 'operand of %s is exactly representable' % show(s_), locline(s_['loc']),
+                                  'each multiply/divide of the accumulator must act on the converted mantissa or on a product tested <= 2^53 '
+                                  'since it was last changed (otherwise the result is rounded twice)', facts.config)
+                rep.require(nops >= 4, 'C04.c: only %d accumulator operations found in parseFloatingFast' % nops)
     # Eisel-Lemire range guard constant and log2(10) approximation
     for f in facts.functions:
         if f.qn == NS + 'AtofEiselLemire64' or f.qn == NS + 'ParseFloatingNormalFast':
@@ -248,6 +298,7 @@ def run(rep, tier):
         clause_c(facts, rep)
         clause_d(facts, rep)
         clause_e(facts, rep)
+        clause_f(facts, rep)
     rep.trust('clang 14 front end and constant evaluator', 'Python big integers / fractions', 'Clinger exact fast-path conditions',
               'simd_str2int contract: the digit count it stores never exceeds the requested count')
     rep.assumptions += [
@@ -408,3 +459,92 @@ def clause_e(facts, rep):
                           'a success return after the AtofNative fallback must sit on the not-infinity edge of a test of the produced bits', facts.config)
     rep.require(n1 >= 1, 'C04.e: no exponent-field site analysed')
     rep.require(n2 >= 1, 'C04.e: no success return after AtofNative found')
+
+
+def clause_f(facts, rep):
+    """Integer kinds: the 20th digit is folded into the mantissa (`man = man*10 + num`, stored as an integer) exactly
+    when the result fits uint64.  The branch conditions between the digit's declaration and that statement are
+    evaluated for a grid of (man, num) around floor(UINT64_MAX/10); the statement must be reached iff
+    man*10 + num <= 2^64-1.  (Reached too often = wrapped integer; too rarely = an integer stored as a double.)"""
+    from ..narrowing import _eval as ev1
+    U = 2 ** 64 - 1
+    n = 0
+    seen = set()
+    for f in facts.functions:
+        if f.cls_qn != PARSER or f.short != 'parseNumber' or f.name.split('<')[0] in seen:
+            continue
+        seen.add(f.name.split('<')[0])
+        # the fold statement and its operands
+        fold = None
+        for bid, i, s in f.stmts():
+            s_ = strip(s)
+            if s_ is None or s_.get('k') != 'bin' or s_['op'] != '=':
+                continue
+            l = strip(s_['l'])
+            r = strip(s_['r'])
+            if l.get('k') == 'ref' and r is not None and r.get('k') == 'bin' and r['op'] == '+':
+                a, b = strip(r['l']), strip(r['r'])
+                if a is not None and a.get('k') == 'bin' and a['op'] == '*' and strip(a['l']).get('id') == l.get('id') and cval(a['r']) == 10 and b is not None and b.get('k') == 'ref' and b.get('dk') == 'local':
+                    # the digit variable must be a single-digit local declared in this function from the text
+                    fold = (bid, i, l['id'], b['id'], s_)
+        if fold is None:
+            continue
+        fb, fi, man_id, num_id, fs = fold
+        # where the digit variable is declared
+        start = None
+        for bid, i, s in f.stmts():
+            s_ = strip(s)
+            if s_ is not None and s_.get('k') == 'decl' and any(vd['id'] == num_id for vd in s_['vars']):
+                start = (bid, i)
+        rep.require(start is not None, 'C04.f: declaration of the 20th digit not found')
+        if start is None:
+            continue
+        rep.fn(f)
+        M = U // 10
+
+        def reaches(man, num):
+            bid, i = start
+            i += 1
+            steps = 0
+            while steps < 64:
+                steps += 1
+                B = f.blocks[bid]
+                for j in range(i, len(B['stmts'])):
+                    s_ = strip(B['stmts'][j])
+                    if s_ is None:
+                        continue
+                    if bid == fb and j == fi:
+                        return True
+                    if s_.get('k') in ('bin',) and s_['op'] in ('=', '+=', '-=', '*=', '|=') or s_.get('k') in ('ret',):
+                        return False       # another effect first: this is not the fold path
+                    if s_.get('k') == 'call' and s_.get('cname') not in ('__builtin_expect',):
+                        return False
+                t = B.get('term')
+                succs = B['succs']
+                if t and t.get('cond') is not None and len(succs) == 2 and t['cls'] != 'SwitchStmt':
+                    try:
+                        v = bool(ev1(t['cond'], {man_id: man, num_id: num}))
+                    except KeyError as ex:
+                        raise AnalysisBroken('C04.f: condition %s between the digit and the fold is not a function of (man, num): %s' % (show(t['cond']), ex))
+                    nxt = succs[0] if v else succs[1]
+                else:
+                    nxt = [x for x in succs if x is not None]
+                    nxt = nxt[0] if len(nxt) == 1 else None
+                if nxt is None:
+                    return False
+                bid, i = nxt, 0
+            raise AnalysisBroken('C04.f: fold path does not terminate')
+        bad = []
+        cnt = 0
+        mans = sorted(set([0, 1, 7, 10 ** 18, 10 ** 19 - 1, 2 ** 63 // 10, 2 ** 63 // 10 + 1, 2 ** 63, 2 ** 63 + 1] + [M + d for d in range(-3, 4)]))
+        for man in mans:
+            for num in range(10):
+                cnt += 1
+                got = reaches(man, num)
+                exp = man * 10 + num <= U
+                if got != exp:
+                    bad.append('man=%d digit=%d: %s but man*10+digit %s 2^64-1' % (man, num, 'folded into the integer' if got else 'sent to the floating-point path', '>' if not exp else '<='))
+        n += 1
+        rep.check(not bad, 'E5.int-boundary', f.qn, '20th digit folded iff man*10+digit <= UINT64_MAX (%d (man, digit) pairs)' % cnt, locline(fs['loc']),
+                  '; '.join(bad[:3]), facts.config)
+    rep.require(n >= 1, 'C04.f: 20-digit fold statement not found in parseNumber')
